@@ -183,8 +183,8 @@ theorem skc_modes (hG : ValidGroup G) (mode : Mode) {P : GrothPub} (hP : PubOk G
       simp [skcResp, List.map_append, List.append_assoc]
     rw [hresp, bind_ok (skcRead2_spec _ _ _ _ _ restV _ _ (by simp [skcRespF]) (by simp [skcRespFD]))]
     simp only []
-    rw [hP.st.grp, hrng]
-    simp only [Bool.not_true, Bool.false_eq_true, if_false]
+    rw [hP.st.grp, hrng, testMembership_val hG hP _ hcg _ _ _ hc]
+    simp only [Bool.and_self, Bool.not_true, Bool.false_eq_true, if_false]
     rw [bind_ok (draw_spec _ alpha csV _ false)]
     rw [bind_ok (liftE_ok (show skcChecks P c fprime m x cd cD ca e (skcRespF G.q pi m ctx e)
       ((e * rho % G.q + ctx.rd) % G.q) (skcRespFD G.q m.length ctx e ++ [0])
